@@ -158,6 +158,7 @@ namespace
         bool ref = false;
         bool twice = false; // the dispatcher object is kept and invoked a second time (stateful rvalue functor)
         bool owning = false; // a state-owning functor passed as a non-const lvalue and dispatched twice
+        bool misc = false; // other call shapes: void/no-arg, move-only result, five mixed arguments
     };
 
     // family templates: feature sets closed under the extension chain
@@ -201,7 +202,7 @@ namespace
     Counter c_cpuid("sim", "cpuid_instructions"), c_xgetbv("sim", "xgetbv_instructions");
     Counter cl_onlyif("clause", "1_only_if(arch,boot)"), cl_mono("clause", "2_monotone_on_closed(child,parent,boot)"), cl_ud("clause", "3_no_xgetbv_ud(boot)"),
         cl_stable("clause", "4_stable_within_boot(compare)"), cl_disp("clause", "5_dispatch_judged"), cl_disp_vac("clause", "5_dispatch_vacuous_none_available"),
-        cl_disp_twice("clause", "5_second_invocation_of_a_kept_dispatcher_judged");
+        cl_disp_twice("clause", "5_second_invocation_of_a_kept_dispatcher_judged"), cl_disp_misc("clause", "5_other_call_shapes_judged(void,move_only_result,five_mixed_arguments)");
     Counter p_closed("probe", "closed_configurations"), p_nonclosed("probe", "non_closed_configurations"), p_bits_no_state("probe", "arch_with_bits_but_os_state_disabled"),
         p_fall5("probe", "dispatch_fell_through_5_or_more"), p_last("probe", "dispatch_chose_last_member"), p_underreport("info", "bits_and_state_present_but_not_reported(permitted:the_property_says_only_if)"),
         p_reboot_changed("probe", "reboot_changed_report"), p_osx_off("probe", "boots_with_osxsave_off"), p_other_leaf("info", "detector_asked_leaf_outside_the_four(would_be_served_stable_junk)");
@@ -493,6 +494,7 @@ namespace
                     op.ref = rng.coin();
                     op.twice = !op.ref && rng.chance(1, 3);
                     op.owning = !op.ref && !op.twice && rng.chance(1, 3);
+                    op.misc = !op.ref && !op.twice && !op.owning && rng.chance(1, 3);
                 }
                 else
                     op = gen_boot(rng, enabled_faults, unrelated_mode, raw_pct);
@@ -646,6 +648,9 @@ namespace
                     io2.tok_in = op.tok ^ 0x55;
                     int payload_left = 3;
                     long payload_sum = 0;
+                    MiscIO mio;
+                    if (op.misc)
+                        le.misc(mio, op.tok);
                     if (op.owning)
                         payload_left = le.owning(io, io2, &payload_sum);
                     else if (op.twice)
@@ -688,6 +693,22 @@ namespace
                                                  io.cv_seen, op.tok, io.tok_seen, io.copies, io.moves));
                         if (io.ret_got != io.ret_expected || (op.ref && !io.ret_is_slot))
                             out.violate("C15/dispatch-return", sim::fmt("returned %ld, functor returned %ld, reference identity %d", io.ret_got, io.ret_expected, (int)io.ret_is_slot));
+                    }
+                    if (op.misc)
+                    {
+                        ++cl_disp_misc;
+                        static const char* SHAPE[3] = { "void()", "unique_ptr(unique_ptr)", "long(int, const string&, double&, vector&&, const char*)" };
+                        for (int k = 0; k < 3; ++k)
+                        {
+                            if (mio.calls[k] != 1)
+                                out.violate("C15/dispatch-call-count", sim::fmt("functor of shape %s invoked %d times (list #%u %s)", SHAPE[k], mio.calls[k], (unsigned)(op.list % lists.size()), ln));
+                            else if (mio.arch[k] != expect)
+                                out.violate("C15/dispatch-wrong-arch", sim::fmt("functor of shape %s received %s, expected %s", SHAPE[k], mio.arch[k] >= 0 ? SPEC[mio.arch[k]].name : "?", SPEC[expect].name));
+                        }
+                        if (mio.calls[1] == 1 && mio.got_unique != mio.want_unique)
+                            out.violate("C15/dispatch-return", sim::fmt("move-only result: got %ld, functor returned %ld", mio.got_unique, mio.want_unique));
+                        if (mio.calls[2] == 1 && (mio.got_many != mio.want_many || !mio.many_ok))
+                            out.violate("C15/dispatch-forwarding", sim::fmt("five mixed arguments: result %ld (functor returned %ld), identities/categories preserved: %d", mio.got_many, mio.want_many, (int)mio.many_ok));
                     }
                     if (op.owning && payload_left != 3)
                         out.violate("C15/dispatch-functor-moved-from", sim::fmt("dispatch(f) with a non-const lvalue functor emptied the caller's object (%d of 3 payload elements left)", payload_left));
@@ -778,7 +799,7 @@ namespace
                     Value names = Value::array();
                     for (int i = 0; i < lists[li].n; ++i)
                         names.push(SPEC[lists[li].ids[i]].name);
-                    o.set("names", names).set("lv", op.lv).set("cv", op.cv).set("tok", op.tok).set("ret", op.ref ? "ref" : op.twice ? "value,invoked_twice" : op.owning ? "value,owning_lvalue_functor_dispatched_twice" : "value");
+                    o.set("names", names).set("lv", op.lv).set("cv", op.cv).set("tok", op.tok).set("ret", op.ref ? "ref" : op.twice ? "value,invoked_twice" : op.owning ? "value,owning_lvalue_functor_dispatched_twice" : op.misc ? "value,plus_other_call_shapes" : "value");
                 }
                 arr.push(o);
             }
@@ -834,6 +855,7 @@ namespace
                     op.ref = o.get_str("ret", "value") == "ref";
                     op.twice = o.get_str("ret", "value") == "value,invoked_twice";
                     op.owning = o.get_str("ret", "value") == "value,owning_lvalue_functor_dispatched_twice";
+                    op.misc = o.get_str("ret", "value") == "value,plus_other_call_shapes";
                 }
                 plan.push_back(op);
             }
@@ -936,10 +958,10 @@ namespace
                         q[i] = o2;
                         out.push_back(q);
                     };
-                    if (op.twice || op.owning)
+                    if (op.twice || op.owning || op.misc)
                     {
                         Op o2 = op;
-                        o2.twice = o2.owning = false;
+                        o2.twice = o2.owning = o2.misc = false;
                         push_op(o2);
                     }
                     if (op.lv != 1)
